@@ -87,6 +87,18 @@ pub fn main(args: &[String]) {
     for (ri, run) in runs.iter().enumerate() {
         nruns += 1;
         let par = Par::from_json(&run["par"]);
+        // INTERACTION between instances: one run in five, ANOTHER writer of the same process is alive all along (created
+        // first, a file left open across everything the run does, fed and finalized after its last step, then read back):
+        // the model's state is per writer, nothing the run does may be felt next to it
+        let mut bystander = if ri % 5 == 3 {
+            mla::ArchiveWriter::from_config(Vec::new(), archive::writer_config(&par)).ok().and_then(|mut w| {
+                let id = w.start_file("bystander").ok()?;
+                w.append_file_content(id, 5, &b"first"[..]).ok()?;
+                Some((w, id))
+            })
+        } else {
+            None
+        };
         let sink = SharedSink::new();
         let mut d = match Driver::new(&par, sink.clone()) {
             Ok(d) => d,
@@ -161,6 +173,23 @@ pub fn main(args: &[String]) {
                 violations.push(json!({"run": ri, "par": run["par"], "step": si, "kind": b["kind"], "detail": b, "steps": st, "trace": trace,
                     "op": lab["op"], "name": lab.get("n"), "src": lab.get("src")}));
                 break;
+            }
+        }
+        if let Some((mut w, id)) = bystander.take() {
+            let r = guarded(|| -> Result<Vec<u8>, String> {
+                w.append_file_content(id, 4, &b"then"[..]).map_err(|e| format!("append: {e:?}"))?;
+                w.end_file(id).map_err(|e| format!("end_file: {e:?}"))?;
+                w.add_file("second", 3, &b"abc"[..]).map_err(|e| format!("add_file: {e:?}"))?;
+                w.finalize().map_err(|e| format!("finalize: {e:?}"))?;
+                let mut rd = mla::ArchiveReader::from_config(std::io::Cursor::new(w.into_raw()), archive::reader_config(&par)).map_err(|e| format!("open: {e:?}"))?;
+                let mut got = vec![];
+                rd.get_file("bystander".to_string()).map_err(|e| format!("{e:?}"))?.ok_or("bystander not found")?.data.read_to_end(&mut got).map_err(|e| e.to_string())?;
+                Ok(got)
+            });
+            if r != Ok(Ok(b"firstthen".to_vec())) && bad.is_none() {
+                bad = Some(json!({"kind": "other-writer-disturbed", "got": format!("{r:?}")}));
+                violations.push(json!({"run": ri, "par": run["par"], "step": st.len(), "kind": "other-writer-disturbed", "detail": bad, "steps": st, "trace": trace,
+                    "op": "bystander", "name": null, "src": null}));
             }
         }
         if bad.is_none() && samples.len() < 3 && st.len() >= 4 {
